@@ -8,7 +8,8 @@
    `mem s (norm FINAL r)` = s is one of the requested states (default: the
    final states); `clauses p0` = the oracle [truthful; timely; timeout;
    justified; no_exception] (p0 = first tick at which the call looks at the
-   entities; `timely` = all at once for a polling interval, and per entity) that the harness evaluates on the traces of the
+   entities; `timely` = all at once for a polling interval, per entity, and -- for
+   wait_tasks only -- per entity in the `reached` (state value) reading) that the harness evaluates on the traces of the
    real code. *)
 From Coq Require Import ZArith List Bool Arith.
 From RP Require Import Gen.StatesTables Wait.Model Wait.Inst Wait.Oracle Wait.Proofs Wait.InstProofs.
@@ -87,7 +88,7 @@ Print Assumptions C15_task_wait_spins_is_forever.
 Theorem C15_task_wait_oracle :
   forall (r : req) (T term : option nat) (fuel : nat) (tr : ttraj),
     horizon [tr] + 2 <= fuel -> (forall t0, T = Some t0 -> t0 + 2 <= fuel) ->
-    clauses tstate_beq tfinal tvalue 0 false (norm tfinal r) T term (Some [tr])
+    clauses tstate_beq tfinal tvalue 0 false false (norm tfinal r) T term (Some [tr])
             (m_task_wait r T term fuel tr) = all_true.
 Proof. exact (entity_clauses tstate_beq tfinal tvalue t_beq_spec). Qed.
 Print Assumptions C15_task_wait_oracle.
@@ -135,7 +136,7 @@ Print Assumptions C15_pilot_wait_spins_is_forever.
 Theorem C15_pilot_wait_oracle :
   forall (r : req) (T term : option nat) (fuel : nat) (tr : ptraj),
     horizon [tr] + 2 <= fuel -> (forall t0, T = Some t0 -> t0 + 2 <= fuel) ->
-    clauses pstate_beq pfinal pvalue 0 false (norm pfinal r) T term (Some [tr])
+    clauses pstate_beq pfinal pvalue 0 false false (norm pfinal r) T term (Some [tr])
             (m_pilot_wait r T term fuel tr) = all_true.
 Proof. exact (entity_clauses pstate_beq pfinal pvalue p_beq_spec). Qed.
 Print Assumptions C15_pilot_wait_oracle.
@@ -158,6 +159,25 @@ Theorem C15_wait_tasks_returns_on_requested_or_final :
 Proof. exact (wait_tasks_returns_by tstate_beq tfinal tvalue t_beq_spec t_final_ne). Qed.
 Print Assumptions C15_wait_tasks_returns_on_requested_or_final.
 
+(* "Reached": in the linear task state model a task has reached a requested
+   state S once it shows S, a state LATER than S (state value >= value S: its
+   callbacks have announced S), or a final state.  If every awaited task has
+   reached a requested state at some tick 1 <= j <= k -- it may already have
+   been past it when the call began, or have jumped over it between two ticks
+   and linger in a later non-final state -- wait_tasks has returned by tick k
+   with the tasks' actual states.  (Task.wait, Pilot.wait and wait_pilots are
+   membership based; this reading is not claimed for them.) *)
+Theorem C15_wait_tasks_returns_when_reached :
+  forall (r : req) (T term : option nat) (fuel : nat) (tab : ttable) (u : uidsel)
+         (aw : list ttraj) (k : nat),
+    awaited_tasks tab u = Some aw -> 1 <= k <= fuel ->
+    (forall tr, In tr aw -> exists j, 1 <= j <= k /\
+        passed tstate_beq tfinal tvalue (norm tfinal r) (at_ tr j) = true) ->
+    exists v t, t <= k /\ m_wait_tasks r T term fuel tab u = Returned v t /\
+                ok_truthful tstate_beq (as_list u) aw (Returned v t) = true.
+Proof. exact (wait_tasks_returns_when_reached tstate_beq tfinal tvalue t_beq_spec t_final_ne). Qed.
+Print Assumptions C15_wait_tasks_returns_when_reached.
+
 (* all oracle clauses (truthful; timely; timeout: returned by T+1; justified:
    no early return; no exception) hold for wait_tasks on every input with
    known uids; an unknown uid raises KeyError *)
@@ -165,7 +185,7 @@ Theorem C15_wait_tasks_oracle :
   forall (r : req) (T term : option nat) (fuel : nat) (tab : ttable) (u : uidsel) (aw : list ttraj),
     awaited_tasks tab u = Some aw ->
     horizon aw + 2 <= fuel -> (forall t0, T = Some t0 -> t0 + 2 <= fuel) ->
-    clauses tstate_beq tfinal tvalue 1 (as_list u) (norm tfinal r) T term (Some aw)
+    clauses tstate_beq tfinal tvalue 1 true (as_list u) (norm tfinal r) T term (Some aw)
             (m_wait_tasks r T term fuel tab u) = all_true.
 Proof. exact (wait_tasks_clauses tstate_beq tfinal tvalue t_beq_spec t_final_top t_final_ne). Qed.
 Print Assumptions C15_wait_tasks_oracle.
@@ -197,7 +217,7 @@ Theorem C15_wait_pilots_oracle :
   forall (r : req) (T term : option nat) (fuel : nat) (tab : ptable) (u : uidsel) (aw : list ptraj),
     awaited_pilots pstate_beq pfinal tab u = Some aw ->
     horizon aw + 2 <= fuel -> (forall t0, T = Some t0 -> t0 + 2 <= fuel) ->
-    clauses pstate_beq pfinal pvalue 0 (as_list u) (norm pfinal r) T term (Some aw)
+    clauses pstate_beq pfinal pvalue 0 false (as_list u) (norm pfinal r) T term (Some aw)
             (m_wait_pilots r T term fuel tab u) = all_true.
 Proof. exact (wait_pilots_clauses pstate_beq pfinal pvalue p_beq_spec). Qed.
 Print Assumptions C15_wait_pilots_oracle.
@@ -227,5 +247,10 @@ Example C15_nonvacuous :
   m_wait_pilots (ROne P_PMGR_ACTIVE_PENDING) None None 12
     [(1%Z, (P_NEW, [P_PMGR_ACTIVE_PENDING; P_PMGR_ACTIVE]));
      (2%Z, (P_NEW, [P_NEW; P_NEW; P_PMGR_ACTIVE_PENDING]))] UAll
-    = Returned (VList [P_PMGR_ACTIVE; P_PMGR_ACTIVE_PENDING]) 4.
+    = Returned (VList [P_PMGR_ACTIVE; P_PMGR_ACTIVE_PENDING]) 4 /\
+  (* task 1 is already past the awaited state, task 2 jumps over it at tick 2
+     and both linger in later non-final states: wait_tasks returns at tick 2 *)
+  m_wait_tasks (ROne T_AGENT_EXECUTING_PENDING) None None 12
+    [(1%Z, (T_AGENT_EXECUTING, [])); (2%Z, (T_AGENT_SCHEDULING, [T_AGENT_SCHEDULING; T_AGENT_EXECUTING]))] UAll
+    = Returned (VList [T_AGENT_EXECUTING; T_AGENT_EXECUTING]) 2.
 Proof. vm_compute. repeat split. Qed.
